@@ -27,7 +27,8 @@ RULE = (
     "Oracle (rows read back with sqlite3): exactly one row per exchange made while logging was on, in transmission order, request bytes and "
     "reply bytes as received (NULL without reply), exception repr or NULL, request_time <= response_time, state = a reference ECU-state "
     "tracker's view before the request, log_mode implicit/emphasized, no 'Could not log messages to database' warning; the exchange in flight "
-    "at cancellation may or may not have a row. Non-trivial: >= 1 non-positive outcome and >= 1 state change. Distinct by history."
+    "at cancellation may or may not have a row. Outcomes also include failures that are no UDS exception: a refused reconnect of a retry, a "
+    "non-connection OSError from the transport, an ECU stuck in ResponsePending (RuntimeError). Non-trivial: >= 1 non-positive outcome and >= 1 state change. Distinct by history."
 )
 ASSUMPTIONS = [
     "real event loop (aiosqlite owns a thread); the scripted transport answers or raises immediately, so no real waiting happens",
